@@ -4,6 +4,7 @@ from typing import Any, Dict, List, Optional, Set, Tuple, Type, Union
 
 import vtlengine.AST as AST
 import vtlengine.Exceptions
+from vtlengine import _verif
 from vtlengine.AST.ASTTemplate import ASTTemplate
 from vtlengine.AST.DAG import HRDAGAnalyzer
 from vtlengine.AST.Grammar.tokens import (
@@ -149,6 +150,7 @@ class InterpreterAnalyzer(ASTTemplate):
         invalid_scalar_outputs = []
         for child in node.children:
             if isinstance(child, (AST.Assignment, AST.PersistentAssignment)):
+                _verif.yield_point("dsout.set")
                 vtlengine.Exceptions.dataset_output = child.left.value  # type: ignore[attr-defined]
             if not isinstance(
                 child,
@@ -174,6 +176,7 @@ class InterpreterAnalyzer(ASTTemplate):
                     if vp_registry.rule_for(viral_comp) is None:
                         raise SemanticError("1-3-3-6", name=viral_comp.name)
 
+            _verif.yield_point("dsout.clear")
             vtlengine.Exceptions.dataset_output = None
             self.datasets[result.name] = copy(result)
             results[result.name] = result
